@@ -11,6 +11,7 @@ import (
 	"os"
 	"sort"
 	"strings"
+	"sync"
 	"unicode/utf16"
 	"unicode/utf8"
 
@@ -183,6 +184,98 @@ func loopBounds(src *hx.Src, fd *ast.FuncDecl) []string {
 	return out
 }
 
+// rootIdent returns the identifier an assignable expression is rooted in (`x`, `x[i]`, `x[i:j]`, `*x`, `x.f`).
+func rootIdent(e ast.Expr) string {
+	for {
+		switch t := e.(type) {
+		case *ast.Ident:
+			return t.Name
+		case *ast.IndexExpr:
+			e = t.X
+		case *ast.SliceExpr:
+			e = t.X
+		case *ast.StarExpr:
+			e = t.X
+		case *ast.ParenExpr:
+			e = t.X
+		case *ast.SelectorExpr:
+			e = t.X
+		default:
+			return ""
+		}
+	}
+}
+
+// outputWrites returns, for a conversion function, every statement that defines or assigns the
+// variable whose value the function returns as its byte slice (first result), in source order. The
+// storage the result lives in is decided by exactly these statements.
+func outputWrites(src *hx.Src, fd *ast.FuncDecl) ([]string, error) {
+	vars := map[string]bool{}
+	var bad error
+	ast.Inspect(fd.Body, func(n ast.Node) bool {
+		if _, ok := n.(*ast.FuncLit); ok {
+			return false
+		}
+		rs, ok := n.(*ast.ReturnStmt)
+		if !ok {
+			return true
+		}
+		if len(rs.Results) == 0 {
+			bad = fmt.Errorf("%s: bare return (named results) — shape not understood", fd.Name.Name)
+			return true
+		}
+		switch t := rs.Results[0].(type) {
+		case *ast.Ident:
+			if t.Name != "nil" {
+				vars[t.Name] = true
+			}
+		default:
+			bad = fmt.Errorf("%s: returns the expression `%s`, not a variable — shape not understood", fd.Name.Name, src.Text(rs.Results[0]))
+		}
+		return true
+	})
+	if bad != nil {
+		return nil, bad
+	}
+	if len(vars) != 1 {
+		return nil, fmt.Errorf("%s: expected exactly one returned slice variable, found %d", fd.Name.Name, len(vars))
+	}
+	var out []string
+	ast.Inspect(fd.Body, func(n ast.Node) bool {
+		switch t := n.(type) {
+		case *ast.AssignStmt:
+			for _, l := range t.Lhs {
+				if vars[rootIdent(l)] {
+					out = append(out, strings.Join(strings.Fields(src.Text(t)), " "))
+					break
+				}
+			}
+		case *ast.DeclStmt:
+			if gd, ok := t.Decl.(*ast.GenDecl); ok {
+				for _, sp := range gd.Specs {
+					if vs, ok := sp.(*ast.ValueSpec); ok {
+						for _, nm := range vs.Names {
+							if vars[nm.Name] {
+								out = append(out, strings.Join(strings.Fields(src.Text(t)), " "))
+							}
+						}
+					}
+				}
+			}
+		}
+		return true
+	})
+	return out, nil
+}
+
+func leanStrings(v []string) string {
+	q := make([]string, len(v))
+	for i, s := range v {
+		q[i] = hx.LeanString(s)
+	}
+	return "[" + strings.Join(q, ", ") + "]"
+}
+
 func extract(a hx.ExtractArgs) error {
 	src, err := hx.ParseSrc(a.Repo, "sql/encodings/rangemap.go")
 	if err != nil {
@@ -215,6 +308,52 @@ func extract(a hx.ExtractArgs) error {
 		}
 		fmt.Fprintf(&b, "def loopBounds_%s : List String := [%s]\n", n, strings.Join(q, ", "))
 	}
+	// where the results live: the statements that write the returned slice variable, the package-level
+	// variables of the file and the fields of the encoder (any storage that outlives a call shows up here)
+	for _, n := range []string{"Decode", "Encode", "EncodeReplaceUnknown", "DecodeRune", "EncodeRune"} {
+		w, err := outputWrites(src, fns[n])
+		if err != nil {
+			return err
+		}
+		fmt.Fprintf(&b, "def outputWrites_%s : List String := %s\n", n, leanStrings(w))
+	}
+	var pkgVars, fields []string
+	foundStruct := false
+	for _, d := range src.File.Decls {
+		gd, ok := d.(*ast.GenDecl)
+		if !ok {
+			continue
+		}
+		for _, sp := range gd.Specs {
+			switch t := sp.(type) {
+			case *ast.ValueSpec:
+				if gd.Tok == token.VAR {
+					for _, nm := range t.Names {
+						if nm.Name != "_" {
+							pkgVars = append(pkgVars, nm.Name)
+						}
+					}
+				}
+			case *ast.TypeSpec:
+				if st, ok := t.Type.(*ast.StructType); ok && t.Name.Name == "RangeMap" {
+					foundStruct = true
+					for _, f := range st.Fields.List {
+						if len(f.Names) == 0 {
+							fields = append(fields, "(embedded) "+src.Text(f.Type))
+						}
+						for _, nm := range f.Names {
+							fields = append(fields, nm.Name+" "+src.Text(f.Type))
+						}
+					}
+				}
+			}
+		}
+	}
+	if !foundStruct {
+		return fmt.Errorf("type RangeMap struct not found in sql/encodings/rangemap.go")
+	}
+	fmt.Fprintf(&b, "def packageVars : List String := %s\n", leanStrings(pkgVars))
+	fmt.Fprintf(&b, "def structFields : List String := %s\n", leanStrings(fields))
 	b.WriteString("\n")
 
 	css := charsets()
@@ -359,6 +498,13 @@ func refEncode(name string, cp rune) ([]byte, bool, bool) { // bytes, representa
 
 func isSurrogate(cp int) bool { return cp >= 0xD800 && cp <= 0xDFFF }
 
+// one call of a batch (see seqCase)
+type subOp struct {
+	op        string // dec | enc | rep | erune | drune
+	cs        charset
+	in, extra []byte
+}
+
 // ---------------------------------------------------------------------------------------------
 
 func run(a hx.RunArgs) error {
@@ -366,7 +512,10 @@ func run(a hx.RunArgs) error {
 	defer out.Close()
 	out.Rule = "per character set: (blk) every Unicode scalar value in blocks [EncodeRune, Encode, EncodeReplaceUnknown, and DecodeRune/Decode of the result, digested]; " +
 		"(dblk) every 1- and 2-byte sequence (+ sampled 3/4-byte blocks) through DecodeRune/Decode and back; (enc/rep/dec/erune/drune) corpus + random strings mixing representable characters, " +
-		"unrepresentable characters, malformed and truncated UTF-8, with and without spare capacity behind the slice. A case is non-trivial when the input contains a non-ASCII byte."
+		"unrepresentable characters, malformed and truncated UTF-8, with and without spare capacity behind the slice; " +
+		"(seq) batches of 2-16 calls whose raw result slices are all kept and read only when the batch is over (keep: inputs scribbled after each call; edit: results read at once, then scribbled up to their capacity, inputs repeat; " +
+		"par: calls dealt to 4 concurrent goroutines), same and mixed character sets and operations; (sqlintros) several introducers in one SELECT; (sqlrows) multi-row INSERT of binary literals into a column of the character set. " +
+		"A case is non-trivial when the input contains a non-ASCII byte."
 	r := hx.NewRand(a.Seed)
 	css := charsets()
 	byName := map[string]charset{}
@@ -480,6 +629,144 @@ func run(a hx.RunArgs) error {
 			back := call2(g, got.b, nil)
 			if back.tag != tagOK || !bytes.Equal(back.b, s) {
 				out.OracleFail(id, "-", fmt.Sprintf("%s %s(%x)=%x, converting back gives %s", cs.name, op, s, got.b, runeObs(back)))
+			}
+		}
+	}
+
+
+	// --- batches: results kept across calls ------------------------------------------------------
+	// A conversion hands back a slice. `RangeMap.IsReturnSafe` promises that it is the call's own
+	// storage; callers rely on it (BytesToString is zero-copy, the plan builder wraps decoded bytes in
+	// literals). A batch makes several calls and looks at the results only afterwards:
+	//   keep  every raw result slice is kept, its input buffer is scribbled over after the call
+	//         (IsReturnSafe encoders), and all results are read when the batch is over
+	//   edit  every result is read at once, then scribbled over up to its capacity (that is what
+	//         IsReturnSafe allows) together with the input; inputs repeat inside a batch
+	//   par   the calls are dealt round-robin to 4 goroutines which run concurrently; each keeps its
+	//         results and all are read after all goroutines are done
+	// Observation = the per-call observations joined by '|'. Model: Gms.RangeMap.observeLate /
+	// observeEager under `Alloc.fresh`, i.e. the values of the pure functions (C30.batch_*).
+	rawCall := func(o subOp, in []byte) (raw []byte, tag int) {
+		var ok bool
+		p := hx.Safe(func() {
+			switch o.op {
+			case "dec":
+				raw, ok = o.cs.enc.Decode(in)
+			case "enc":
+				raw, ok = o.cs.enc.Encode(in)
+			case "rep":
+				raw, ok = o.cs.enc.EncodeReplaceUnknown(in), true
+			case "erune":
+				raw, ok = o.cs.enc.EncodeRune(in)
+			case "drune":
+				raw, ok = o.cs.enc.DecodeRune(in)
+			}
+		})
+		switch {
+		case p != "":
+			return nil, tagCrash
+		case !ok:
+			return nil, tagFail
+		}
+		return raw, tagOK
+	}
+	obsOf := func(o subOp, raw []byte, tag int) string {
+		r := res{tag: tag}
+		if tag == tagOK {
+			r.b = append([]byte(nil), raw...)
+		}
+		if o.op == "erune" || o.op == "drune" {
+			return runeObs(r)
+		}
+		return r.String()
+	}
+	fill := func(b []byte, v byte) {
+		b = b[:cap(b)]
+		for i := range b {
+			b[i] = v
+		}
+	}
+	seqCase := func(mode string, ops []subOp) {
+		n := len(ops)
+		items := make([]string, 0, n+2)
+		items = append(items, "seq", mode)
+		nt := false
+		for _, o := range ops {
+			if o.op == "enc" {
+				items = append(items, hx.List(o.op, o.cs.name, hx.Hex(o.in), hx.Hex(o.extra)))
+			} else {
+				items = append(items, hx.List(o.op, o.cs.name, hx.Hex(o.in)))
+			}
+			nt = nt || nonASCII(o.in)
+		}
+		// reference: every call on its own, looked at immediately (what the single-operation cases do)
+		base := make([]string, n)
+		for i, o := range ops {
+			raw, tag := rawCall(o, exact(o.in, o.extra))
+			base[i] = obsOf(o, raw, tag)
+		}
+		ins := make([][]byte, n)
+		raws := make([][]byte, n)
+		tags := make([]int, n)
+		early := make([]string, n)
+		final := make([]string, n)
+		one := func(i int, scribbleResult bool) {
+			o := ops[i]
+			ins[i] = exact(o.in, o.extra)
+			raws[i], tags[i] = rawCall(o, ins[i])
+			early[i] = obsOf(o, raws[i], tags[i])
+			if o.cs.enc.IsReturnSafe() {
+				// the result is promised not to share storage with the argument (or anything else)
+				fill(ins[i], 0xAA)
+				if scribbleResult && tags[i] == tagOK {
+					fill(raws[i], 0x55)
+				}
+			}
+		}
+		switch mode {
+		case "keep":
+			for i := range ops {
+				one(i, false)
+			}
+			for i, o := range ops {
+				final[i] = obsOf(o, raws[i], tags[i])
+			}
+		case "edit":
+			for i := range ops {
+				one(i, true)
+				final[i] = early[i]
+			}
+		case "par":
+			const G = 4
+			var wg sync.WaitGroup
+			for g := 0; g < G; g++ {
+				wg.Add(1)
+				go func(g int) {
+					defer wg.Done()
+					for i := g; i < n; i += G {
+						one(i, false)
+					}
+				}(g)
+			}
+			wg.Wait()
+			for i, o := range ops {
+				final[i] = obsOf(o, raws[i], tags[i])
+			}
+		}
+		id := out.Case(hx.List(items...), strings.Join(final, "|"), nt)
+		out.Stat("seq:" + mode)
+		out.StatN("seq:calls", n)
+		for i, o := range ops {
+			switch {
+			case final[i] != early[i]:
+				out.Stat("seq:result-changed-after-return")
+				out.OracleFail(id, "-", fmt.Sprintf("batch (%s): result %d, %s.%s(%x), was %s when the call returned and reads %s after the later calls of the batch — results of successive calls share storage",
+					mode, i, o.cs.name, o.op, o.in, early[i], final[i]))
+				return
+			case early[i] != base[i]:
+				out.OracleFail(id, "-", fmt.Sprintf("batch (%s): call %d, %s.%s(%x), returns %s inside the batch and %s on its own — a call depends on the calls made before it",
+					mode, i, o.cs.name, o.op, o.in, early[i], base[i]))
+				return
 			}
 		}
 	}
@@ -633,6 +920,112 @@ func run(a hx.RunArgs) error {
 			out.OracleFail(id, "-", fmt.Sprintf("SELECT _%s x'%x' gives %s, Encoder.Decode gives %s", cs.name, b, got, want))
 		}
 	}
+	// several introducers in one statement: every literal is decoded while the plan is built and all of
+	// them are still in use when the row is produced
+	rawVal := func(v interface{}) res {
+		switch t := v.(type) {
+		case string:
+			return res{tag: tagOK, b: []byte(t)}
+		case []byte:
+			return res{tag: tagOK, b: append([]byte(nil), t...)}
+		case nil:
+			return res{tag: tagFail}
+		}
+		return res{tag: tagOK, b: []byte(fmt.Sprint(v))}
+	}
+	sqlIntros := func(items []subOp) {
+		var sel, pl, want []string
+		pl = append(pl, "sqlintros")
+		nt := false
+		anyFail := false
+		for _, it := range items {
+			sel = append(sel, fmt.Sprintf("_%s x'%x'", it.cs.name, it.in))
+			pl = append(pl, hx.List(it.cs.name, hx.Hex(it.in)))
+			nt = nt || nonASCII(it.in)
+			w := call2(it.cs.enc.Decode, it.in, nil)
+			anyFail = anyFail || w.tag != tagOK
+			want = append(want, w.String())
+		}
+		q := "SELECT " + strings.Join(sel, ", ")
+		r := e.Query(e.Ctx(), q)
+		obs := ""
+		switch {
+		case r.Panic != "":
+			obs = "crash"
+		case r.Err != nil || r.Timeout || len(r.Raw) != 1 || len(r.Raw[0]) != len(items):
+			obs = "fail"
+		default:
+			var cols []string
+			for _, v := range r.Raw[0] {
+				cols = append(cols, rawVal(v).String())
+			}
+			obs = strings.Join(cols, "|")
+		}
+		id := out.Case(hx.List(pl...), obs, nt)
+		out.Stat("sqlintros")
+		wantObs := strings.Join(want, "|")
+		if anyFail {
+			wantObs = "fail"
+		}
+		if obs == "crash" {
+			out.OracleFail(id, "sql_statement_panics", q+" panics")
+		} else if obs != wantObs {
+			out.OracleFail(id, "-", fmt.Sprintf("%s gives %s, Encoder.Decode of the literals one at a time gives %s", q, obs, wantObs))
+		}
+	}
+	// several values of one multi-row INSERT converted into a column of the character set: a binary
+	// literal that is not valid UTF-8 is decoded from the column's character set when it is stored
+	// (types.StringType.Convert); all rows are converted before the first is read back.
+	// Envelope: every value decodes and is NOT valid UTF-8 as it stands (a value that happens to be valid
+	// UTF-8 is stored undecoded — that is the behaviour behind finding sql_convert_using_not_decoded /
+	// sql_unrepresentable_stored and is kept out of this stream).
+	rowsMade := map[string]bool{}
+	sqlRows := func(cs charset, vals [][]byte) {
+		if !cs.isRM {
+			return
+		}
+		var tuples, pl, want []string
+		pl = append(pl, "sqlrows", cs.name)
+		for i, v := range vals {
+			w := call2(cs.enc.Decode, v, nil)
+			if utf8.Valid(v) || w.tag != tagOK || len(v) == 0 {
+				return
+			}
+			tuples = append(tuples, fmt.Sprintf("(%d, x'%x')", i+1, v))
+			pl = append(pl, hx.Hex(v))
+			want = append(want, w.String())
+		}
+		if !rowsMade[cs.name] {
+			e.MustExec(e.Ctx(), fmt.Sprintf("CREATE TABLE r_%s (id INT PRIMARY KEY, c VARCHAR(64) CHARACTER SET %s)", cs.name, cs.name))
+			rowsMade[cs.name] = true
+		}
+		ins := e.Query(e.Ctx(), fmt.Sprintf("INSERT INTO r_%s VALUES %s", cs.name, strings.Join(tuples, ", ")))
+		sel := e.Query(e.Ctx(), fmt.Sprintf("SELECT c FROM r_%s ORDER BY id", cs.name))
+		e.Query(e.Ctx(), fmt.Sprintf("DELETE FROM r_%s", cs.name))
+		obs := ""
+		switch {
+		case ins.Panic != "" || sel.Panic != "":
+			obs = "crash"
+		case ins.Err != nil || ins.Timeout:
+			obs = "ins=fail"
+		case sel.Err != nil || sel.Timeout || len(sel.Raw) != len(vals):
+			obs = "sel=fail"
+		default:
+			var cols []string
+			for _, row := range sel.Raw {
+				cols = append(cols, rawVal(row[0]).String())
+			}
+			obs = strings.Join(cols, "|")
+		}
+		id := out.Case(hx.List(pl...), obs, true)
+		out.Stat("sqlrows")
+		if obs == "crash" {
+			out.OracleFail(id, "sql_statement_panics", fmt.Sprintf("multi-row INSERT of %v into CHARACTER SET %s panics", tuples, cs.name))
+		} else if obs != strings.Join(want, "|") {
+			out.OracleFail(id, "-", fmt.Sprintf("multi-row INSERT of %v into a CHARACTER SET %s column reads back %s, Encoder.Decode of the values one at a time gives %s",
+				tuples, cs.name, obs, strings.Join(want, "|")))
+		}
+	}
 	sqlConv := func(cs charset, s []byte) {
 		lit, ok := sqlLit(s)
 		if !ok {
@@ -760,11 +1153,36 @@ func run(a hx.RunArgs) error {
 		sqlIntro(cs, []byte{0x00, 0x61})
 		sqlIntro(cs, []byte{0x00})
 	}
+	// batches (results kept across calls): witnesses of the class "a later call rewrites an earlier
+	// result" first — equal lengths, longer after shorter, shorter after longer, different character sets
+	if cs, ok := byName["latin1"]; ok {
+		d := func(b ...byte) subOp { return subOp{op: "dec", cs: cs, in: b} }
+		seqCase("keep", []subOp{d(0xe9), d(0xe8)})
+		seqCase("keep", []subOp{d(0xe9, 0xe9, 0xe9), d(0xe8, 0xe8, 0xe8)})
+		seqCase("keep", []subOp{d('h', 0xe9, 'l', 'l', 'o'), d('a', 'b'), d(0x80, 0xe9, 0xe8, 0xe7, 0xe6, 0xe5, 0xe4)})
+		seqCase("edit", []subOp{d(0xe9, 0xe9), d(0xe9, 0xe9), d(0xe8)})
+		seqCase("par", []subOp{d(0xe9), d(0xe8), d(0xe7), d(0xe6), d(0xe5), d(0xe4), d(0xe3), d(0xe2)})
+		seqCase("keep", []subOp{{op: "enc", cs: cs, in: []byte("\xc3\xa9\xc3\xa9")}, {op: "enc", cs: cs, in: []byte("ab")}, {op: "rep", cs: cs, in: []byte("\xc4\x80abc")},
+			{op: "rep", cs: cs, in: []byte("xyz")}, {op: "erune", cs: cs, in: []byte("\xc3\xa9")}, {op: "erune", cs: cs, in: []byte("\xc3\xa8")}, {op: "drune", cs: cs, in: []byte{0xe9}}, {op: "drune", cs: cs, in: []byte{0xe8}}})
+		sqlIntros([]subOp{d(0xe9, 0xe9, 0xe9), d(0xe8, 0xe8, 0xe8)})
+		sqlRows(cs, [][]byte{{0xe9, 0xe9, 0xe9}, {0xe8, 0xe8, 0xe8}})
+		if u, ok := byName["utf16"]; ok {
+			seqCase("keep", []subOp{d(0xe9, 0xe9), {op: "dec", cs: u, in: []byte{0x65, 0xe5}}})
+			sqlIntros([]subOp{d(0xe9, 0xe9), {op: "dec", cs: u, in: []byte{0x65, 0xe5}}, d('a')})
+		}
+	}
+	if cs, ok := byName["utf16"]; ok {
+		d := func(b ...byte) subOp { return subOp{op: "dec", cs: cs, in: b} }
+		seqCase("keep", []subOp{d(0x00, 0xe9, 0x00, 0xe9), d(0x65, 0xe5, 0x65, 0xe5), d(0x00, 0x41, 0x00, 0x42)})
+		sqlIntros([]subOp{d(0x00, 0xe9, 0x00, 0xe9), d(0x65, 0xe5, 0x65, 0xe5), d(0x00, 0x41, 0x00, 0x42)})
+		sqlRows(cs, [][]byte{{0x00, 0xe9, 0x00, 0xe9}, {0x65, 0xe5, 0x65, 0xe5}})
+	}
 	for _, cs := range css {
 		encCase(cs, nil, nil)
 		decCase(cs, nil)
 		repCase(cs, nil)
 		encCase(cs, []byte("abc"), nil)
+		seqCase("keep", []subOp{{op: "dec", cs: cs, in: []byte("ab")}, {op: "dec", cs: cs, in: nil}, {op: "dec", cs: cs, in: []byte("cd")}})
 	}
 
 	// --- sweeps ------------------------------------------------------------------------------
@@ -902,6 +1320,105 @@ func run(a hx.RunArgs) error {
 					b = b[:len(b)-1]
 				}
 				sqlIntro(cs, b)
+			}
+		}
+	}
+	// --- batches -----------------------------------------------------------------------------
+	nSeq, nSQLm := 130, 16
+	if a.Thorough {
+		nSeq, nSQLm = 6000, 400
+	}
+	// charset-side bytes: the encoding of a (mostly) representable string, sometimes damaged
+	genDecIn := func(cs charset, maxUnits int, damage bool) []byte {
+		p := pools[cs.name]
+		var s []byte
+		for n := r.Intn(maxUnits + 1); n > 0; n-- {
+			if len(p.rep) > 0 && !r.Chance(1, 4) {
+				s = utf8.AppendRune(s, hx.Pick(r, p.rep))
+			} else {
+				s = append(s, byte('a'+r.Intn(26)))
+			}
+		}
+		b := callRep(cs.enc, s).b
+		if damage && r.Chance(1, 8) && len(b) > 0 {
+			b[r.Intn(len(b))] = byte(r.Intn(256))
+		}
+		return b
+	}
+	genOp := func(cs charset) subOp {
+		switch k := r.Intn(20); {
+		case k < 10:
+			return subOp{op: "dec", cs: cs, in: genDecIn(cs, 8, true)}
+		case k < 13:
+			return subOp{op: "enc", cs: cs, in: genString(cs, 8)}
+		case k < 16:
+			return subOp{op: "rep", cs: cs, in: genString(cs, 8)}
+		default:
+			u := genString(cs, 2)
+			if len(u) > 4 {
+				u = u[:1+r.Intn(4)]
+			}
+			if len(u) == 0 {
+				u = []byte{byte(r.Intn(256))}
+			}
+			if k < 18 {
+				return subOp{op: "erune", cs: cs, in: u}
+			}
+			b := genDecIn(cs, 1, false)
+			if len(b) == 0 {
+				b = []byte{byte(r.Intn(256))}
+			}
+			return subOp{op: "drune", cs: cs, in: b}
+		}
+	}
+	for _, cs := range css {
+		for i := 0; i < nSeq; i++ {
+			mode := []string{"keep", "keep", "keep", "edit", "edit", "par"}[r.Intn(6)]
+			n := 2 + r.Intn(5)
+			if mode == "par" {
+				n = 4 + r.Intn(13)
+			}
+			mixed := r.Chance(1, 4)
+			var ops []subOp
+			for j := 0; j < n; j++ {
+				c := cs
+				if mixed && r.Bool() {
+					c = hx.Pick(r, css)
+				}
+				if len(ops) > 0 && r.Chance(1, 4) {
+					ops = append(ops, hx.Pick(r, ops)) // the same call again
+				} else {
+					ops = append(ops, genOp(c))
+				}
+			}
+			seqCase(mode, ops)
+		}
+		for i := 0; i < nSQLm; i++ {
+			n := 2 + r.Intn(3)
+			if r.Bool() {
+				var items []subOp
+				for j := 0; j < n; j++ {
+					c := cs
+					if r.Chance(1, 4) {
+						c = hx.Pick(r, css)
+					}
+					items = append(items, subOp{op: "dec", cs: c, in: genDecIn(c, 5, j == 0 && r.Chance(1, 4))})
+				}
+				sqlIntros(items)
+			} else {
+				var vals [][]byte
+				for j := 0; j < n; j++ {
+					// a value the engine has to decode: not valid UTF-8 as it stands
+					var v []byte
+					for t := 0; t < 6; t++ {
+						v = genDecIn(cs, 5, false)
+						if len(v) > 0 && !utf8.Valid(v) {
+							break
+						}
+					}
+					vals = append(vals, v)
+				}
+				sqlRows(cs, vals)
 			}
 		}
 	}
